@@ -240,7 +240,9 @@ func (g *Gen) pointMods(fc *FnCtx, sp *FuncSpec) []pointMod {
 	var out []pointMod
 	entries := g.expandStar(sp.Modifies)
 	for _, gs := range sp.GhostSets {
-		entries = append(entries, "ghost "+gs[0]+"["+gs[1]+"]")
+		if gs[1] != "" {
+			entries = append(entries, "ghost "+gs[0]+"["+gs[1]+"]")
+		}
 	}
 	for _, e := range entries {
 		var cond *SExpr
@@ -340,7 +342,7 @@ func (g *Gen) fnMods(fc *FnCtx, fn *ssa.Function) *ModSet {
 		return ms
 	}
 	ms := g.bodyMods(fc, fn)
-	if sp := g.specFor(fn); sp != nil && len(sp.GhostSets) > 0 {
+	if sp := g.specFor(fn); sp != nil && (len(sp.GhostSets) > 0 || len(sp.GhostInits) > 0) {
 		cp := newModSet()
 		cp.add(ms)
 		g.addGhostSets(fc, sp, cp)
@@ -350,6 +352,11 @@ func (g *Gen) fnMods(fc *FnCtx, fn *ssa.Function) *ModSet {
 }
 
 func (g *Gen) addGhostSets(fc *FnCtx, sp *FuncSpec, ms *ModSet) {
+	for _, gi := range sp.GhostInits {
+		for _, n := range g.modEntryNames(fc, sp, "ghost "+gi[0]) {
+			ms.Names[n] = true
+		}
+	}
 	for _, gs := range sp.GhostSets {
 		for _, n := range g.modEntryNames(fc, sp, "ghost "+gs[0]) {
 			ms.Names[n] = true
@@ -935,6 +942,35 @@ func (fr *Frame) applyContract(sp *FuncSpec, fn *ssa.Function, name string, pnam
 			env.derefs[pnames[i+shift]] = func(s *State) Val { return fc.load(s, ad, pt2) }
 		}
 	}
+	// closures passed as arguments can be applied in the callee's contract: call(f, x)
+	if ci, ok := in.(ssa.CallInstruction); ok && !ci.Common().IsInvoke() {
+		cargs := ci.Common().Args
+		clos := map[string]*ssa.MakeClosure{}
+		for i, a := range cargs {
+			if mc, ok := a.(*ssa.MakeClosure); ok && i < len(pnames) {
+				clos[pnames[i]] = mc
+			}
+		}
+		if len(clos) > 0 {
+			env.applyClo = func(name string, as []Val, s *State) (Val, bool) {
+				mc := clos[name]
+				if mc == nil {
+					return Val{}, false
+				}
+				cfn := mc.Fn.(*ssa.Function)
+				if len(findLoops(cfn)) > 0 || cfn.Signature.Results().Len() != 1 {
+					return Val{}, false
+				}
+				var r Val
+				// the closure is evaluated for its value only; its (absent) effects on the state are discarded
+				fc.suppress++
+				fr.inline(nil, cfn, mc, as, cfn.Signature.Results().At(0).Type(), b, s, "true", func(v Val) { r = v })
+				fc.suppress--
+				fc.note("closure " + fnName(cfn) + " applied inside the contract of " + name + " (assumed side-effect free)")
+				return r, true
+			}
+		}
+	}
 	// closure free variables by name
 	if mcIn, ok := in.(ssa.CallInstruction); ok {
 		if mc, ok := mcIn.Common().Value.(*ssa.MakeClosure); ok {
@@ -1046,6 +1082,13 @@ func (fr *Frame) applyContract(sp *FuncSpec, fn *ssa.Function, name string, pnam
 				}
 			}
 		}
+		for _, gs := range sp.GhostSets {
+			if gs[1] == "" {
+				if ns := fc.g.modEntryNames(fc, sp, "ghost "+gs[0]); len(ns) == 1 {
+					nst = nst.havocSet(map[string]bool{ns[0]: true})
+				}
+			}
+		}
 		var refFresh []string
 		var typed []func()
 		defer func() {
@@ -1103,6 +1146,7 @@ func (fr *Frame) applyContract(sp *FuncSpec, fn *ssa.Function, name string, pnam
 		eenv.names[k] = v
 	}
 	eenv.derefs = env.derefs
+	eenv.applyClo = env.applyClo
 	rnames := sp.Results
 	if rnames == nil {
 		for i := 0; i < sig.Results().Len(); i++ {
@@ -1159,7 +1203,7 @@ func (fr *Frame) lookupLocalAt(name string, st *State, b *ssa.BasicBlock, at ssa
 			break
 		}
 		if d, ok := in.(*ssa.DebugRef); ok && !d.IsAddr && d.Object() != nil && d.Object().Name() == name {
-			if _, isVar := d.Object().(*types.Var); isVar {
+			if _, isVar := d.Object().(*types.Var); isVar && !isPkgLevel(d.Object()) {
 				best = d.X
 			}
 		}
